@@ -125,6 +125,8 @@ type Engine struct {
 	inPristine     bool
 	copyMap        map[*Obj]*Obj
 	copyMaps       map[*MapObj]*MapObj
+	boxes          []boxed // boxed codec table (per path)
+	clock          int     // readings of time.Now on this path
 	stack       []string
 	objID       int
 	opaqueT     types.Type
@@ -465,6 +467,11 @@ func (e *Engine) doAssume(c Bool, label string) {
 	}
 }
 
+type boxed struct {
+	t types.Type
+	v Val
+}
+
 // ---- path driver ----
 
 func (e *Engine) resetPath() {
@@ -498,6 +505,8 @@ func (e *Engine) resetPath() {
 	e.defs = 0
 	e.nsym = 0
 	e.callDepth = 0
+	e.boxes = nil
+	e.clock = 0
 	e.onceDone = nil
 	e.locks = nil
 	if profiling && e.prof == nil {
